@@ -749,6 +749,7 @@ func runShare(res *vk.Result, maxLenShare, maxLenOther int) {
 			order = append(order, i)
 		}
 	}
+	runShareDeep(res, u, u.depth()+1)
 	for pos, c0 := range order {
 		maxLen := maxLenOther
 		if u.N[c0].IsShare {
@@ -780,6 +781,80 @@ func runShare(res *vk.Result, maxLenShare, maxLenOther int) {
 			}
 		}
 	}
+}
+
+// runShareDeep covers the whole depth of the stored graph: every chain, of any
+// length, whose part before the last blob is a valid chain (so: every valid
+// chain down to the chunks, e.g. share -> directory -> static-set -> sub-set ->
+// file -> bytes -> bytes -> chunk, and every one-blob deviation from a valid
+// chain), with the last blob ranging over the whole universe.
+func runShareDeep(res *vk.Result, u *universe, maxLen int) {
+	n := len(u.N)
+	sc := res.Scenario("share-deep-frontier")
+	sc.Bound = fmt.Sprintf("all chains of length 1..%d whose prefix without the last blob is a valid chain, last blob ranging over all %d blobs, x {GET,HEAD} x assemble {off,on} (the stored graph is %d hops deep)", maxLen, n, u.depth())
+	deepest := 0
+	var ext func(chain []int, top int)
+	ext = func(chain []int, top int) {
+		for c := 0; c < n; c++ {
+			if len(chain) == 1 && !vk.Mine(top*n+c) {
+				continue
+			}
+			next := append(append([]int(nil), chain...), c)
+			sc.Transitions++
+			sc.States++
+			for _, vr := range readVariants {
+				q := shareReq{Method: vr.method, Chain: u.names(next), Assemble: vr.assemble}
+				out, p := u.checkOne(q, next)
+				sc.Executions++
+				sc.Outcome(fmt.Sprintf("len%d|%s", len(next), out))
+				if p != nil {
+					u.report(res, sc, q, next, p)
+				}
+				if p == nil && len(next) > deepest && strings.HasPrefix(out, "serve[") && vr.method == "GET" && !vr.assemble {
+					deepest = len(next)
+					if len(next) >= u.depth() {
+						sc.Sample(map[string]any{"deepest_served_chain": q.Chain, "oracle_and_status": out})
+					}
+				}
+			}
+			if v := u.judge(next); v.Serve && u.N[c].Present && len(next) < maxLen {
+				ext(next, top)
+			}
+		}
+	}
+	top := 0
+	for i, x := range u.N {
+		if !x.IsShare {
+			continue
+		}
+		if v := u.judge([]int{i}); v.Serve {
+			ext([]int{i}, top)
+		}
+		top++
+	}
+}
+
+// depth is the length of the longest valid chain of the universe (per the link table).
+func (u *universe) depth() int {
+	var down func(i int) int
+	down = func(i int) int {
+		d := 0
+		for t := range u.N[i].Links {
+			if x := down(t); x > d {
+				d = x
+			}
+		}
+		return d + 1
+	}
+	best := 0
+	for _, x := range u.N {
+		if x.IsShare && x.Transitive && !x.Deleted && !x.Expired {
+			if d := 1 + down(x.Target); d > best {
+				best = d
+			}
+		}
+	}
+	return best
 }
 
 func (u *universe) describe() []string {
